@@ -29,6 +29,9 @@ func propC15(a *Analysis, r *Registry) {
 		}
 	}
 	b.CheckSwap("C-swap", "fit.(*pairSlice).Swap")
+	// the order LOESS sorts its copies by: ascending x, over all the points
+	b.Formula(rB, "fit.(*pairSlice).Less", "fit.(*pairSlice).Less", []string{"s", "i", "j"}, nil, 0, "s.xs[i]<s.xs[j]", nil)
+	b.Formula(rB, "fit.(*pairSlice).Len", "fit.(*pairSlice).Len", []string{"s"}, nil, 0, "len(s.xs)", nil)
 
 	// ---- monomial basis ----
 	if fn := b.Fn(rB, "fit.PolynomialRegression"); fn != nil {
